@@ -64,6 +64,36 @@ def deviations (L : Layout) (w : Wire) : List (Nat ⊕ Nat) :=
     | none, none => none
   md ++ od
 
+/-- row-by-row agreement in the form the proofs use: every mandatory element matches, and every optional row
+    matches except those of the struct fields listed in `skip` (which a message must then leave nil) -/
+def mandAgree (fields : List Field) : List (Nat × List WOp) → List MWire → Bool
+  | [], [] => true
+  | (i, e) :: ge, mw :: mws =>
+    (match fields[i]? with
+      | some f => (match mandWireOf f.shape e with
+          | some impl => mandMatches impl mw
+          | none => false)
+      | none => false) && mandAgree fields ge mws
+  | _, _ => false
+
+def optAgree (fields : List Field) (skip : List Nat) : List (Nat × List WOp) → List DecCase → List OWire → Bool
+  | [], [], [] => true
+  | (i, e) :: ge, c :: cs, ow :: ows =>
+    (skip.contains i ||
+      (match fields[i]? with
+        | some f => (match optKindOf f.shape e with
+            | some impl => optMatches c.iei impl ow
+            | none => false)
+        | none => false)) && optAgree fields skip ge cs ows
+  | _, _, _ => false
+
+def agree (L : Layout) (w : Wire) (skip : List Nat) : Bool :=
+  mandAgree L.fields L.encMand w.mand && optAgree L.fields skip L.encOpt L.cases w.opt &&
+  nodupNat (w.opt.map (·.iei)) && noRest w
+
+/-- the message leaves the skipped fields nil -/
+def skips (m : Msg) (skip : List Nat) : Bool := skip.all fun i => m[i]? == some none
+
 /-! ### codec values ↔ abstract messages -/
 
 /-- value part of a mandatory field as the standard sees it -/
@@ -96,11 +126,13 @@ def specValOK (s : Shape) (v : Val) : List WOp → Bool
   | [.len, .octet] | [.iei, .len, .octet] => v.len == s.body.size
   | _ => true
 
-def specWF (L : Layout) (m : Msg) : Bool :=
-  msgWF L m &&
-  (L.encMand ++ L.encOpt).all fun g => match L.fields[g.1]?, m[g.1]? with
+def specValsOK (fields : List Field) (m : Msg) (ge : List (Nat × List WOp)) : Bool :=
+  ge.all fun g => match fields[g.1]?, m[g.1]? with
     | some f, some (some v) => specValOK f.shape v g.2
     | _, _ => true
+
+def specWF (L : Layout) (m : Msg) : Bool :=
+  msgWF L m && specValsOK L.fields m L.encMand && specValsOK L.fields m L.encOpt
 
 /-- the codec value a decoder should produce for a value part of the standard (the `Octet[N]` shapes pad
     with zeros, `Len` is the number of value octets) -/
